@@ -25,7 +25,7 @@ func init() {
 		Level: "exploration",
 		Rule: "hash list: one case = one generated key (length 0..67 incl. nil/empty, high-bit bytes, long keys) evaluated for every hashing balancer over a set of partition counts; " +
 			"signature = (balancer, key length mod 4, key class, partition-count class), non-trivial = hashed (non-random) path taken. " +
-			"seq list: RoundRobin/LeastBytes call sequences vs the sequential law; conc list: concurrent histories checked with porcupine; signature = (kind, goroutines, calls, n, chunk, overlap observed)",
+			"seq list: RoundRobin/LeastBytes call sequences vs the sequential law; varylist list: one value of every balancer offered lists whose length changes between calls (several topics sharing the Writer's balancer, partition counts growing), result must be in the list offered now; conc list: concurrent histories checked with porcupine; signature = (kind, goroutines, calls, n, chunk, overlap observed)",
 		Assumptions: []string{
 			"reference FNV-1a/CRC-32/murmur2 and the Sarama/librdkafka/Java partitioner formulas are transcribed in the harness from the reference clients' published source",
 			"partition lists are the contiguous 0..n-1 lists a Writer supplies",
@@ -333,6 +333,72 @@ func runC13(c *core.Ctx) {
 			bytes[got] += uint64(len(m.Key) + len(m.Value))
 		}
 		c.Distinct(fmt.Sprintf("lb n=%s ties=%v", nClass(n), ties))
+	})
+
+	// one balancer value offered lists of changing length (a Writer without a fixed
+	// Topic shares its balancer between topics with different partition counts, and a
+	// topic's partition count can grow): whatever was offered before, the answer must be
+	// one of the partitions offered now
+	c.Cases("varylist", c.N(1500, 150000), func(k *core.Case) {
+		r := k.R
+		chunk := core.Pick(r, 0, 1, 1, 2, 3, 5, 16)
+		type nb struct {
+			name string
+			b    kafka.Balancer
+		}
+		bals := []nb{
+			{"RoundRobin", &kafka.RoundRobin{ChunkSize: chunk}},
+			{"LeastBytes", &kafka.LeastBytes{}},
+			{"Hash", &kafka.Hash{}},
+			{"ReferenceHash", &kafka.ReferenceHash{}},
+			{"CRC32", kafka.CRC32Balancer{}},
+			{"Murmur2", kafka.Murmur2Balancer{}},
+		}
+		nTopics := r.Range(2, 5)
+		counts := make([]int, nTopics)
+		for i := range counts {
+			counts[i] = core.Pick(r, 1, 2, 3, 3, 5, 8, 8, 13, 40)
+		}
+		calls := r.Range(8, 160)
+		k.Describe(map[string]any{"chunk": chunk, "counts": counts, "calls": calls})
+		shrinks, grows := 0, 0
+		last := -1
+		cur := r.Intn(nTopics)
+		dead := map[string]bool{}
+		for i := 0; i < calls; i++ {
+			switch r.Intn(4) {
+			case 0:
+				cur = r.Intn(nTopics)
+			case 1:
+				if r.Chance(1, 4) && counts[cur] < 2000 { // the topic got more partitions
+					counts[cur] += r.Range(1, 4)
+				}
+			}
+			n := counts[cur]
+			if last >= 0 && n < last {
+				shrinks++
+			} else if n > last && last >= 0 {
+				grows++
+			}
+			last = n
+			parts := contiguous(n)
+			m := kafka.Message{Value: []byte("x")}
+			if r.Chance(1, 3) {
+				m.Key = r.Bytes(r.Range(1, 9))
+			}
+			for _, b := range bals {
+				if dead[b.name] {
+					continue
+				}
+				got := b.b.Balance(m, parts...)
+				c.Eval(1)
+				if !inOffered(got, n) {
+					dead[b.name] = true
+					k.Viol("c13:not-offered:"+b.name+":list-changed", fmt.Sprintf("%s (call #%d on this value, earlier lists of other lengths: partition counts %v) returned %d for the list 0..%d", b.name, i, counts, got, n-1), nil)
+				}
+			}
+		}
+		c.Distinct(fmt.Sprintf("varylist chunk=%d shrinks=%v grows=%v", chunk, shrinks > 0, grows > 0))
 	})
 
 	// concurrent histories -> porcupine
